@@ -385,7 +385,7 @@ Lemma zrun_ok : forall L c ops s ok,
 Proof.
   intros L c ops. induction ops as [|op r IH]; intros s ok Hs; [reflexivity|].
   cbn [zrun].
-  destruct s, op; cbn [zstep];
+  destruct s, op as [o|[|]| |]; cbn [zstep];
     try (destruct (zo_opens o); [destruct (validate_zipfile L (zo_infos o))|]);
     cbn [app trace_ok_from]; try rewrite (Hs eq_refl); cbn [andb];
     apply IH; intros E; try discriminate E; auto;
@@ -405,7 +405,7 @@ Lemma zrun_no_read_unless_validated : forall L c ops s,
   s <> Validated -> s <> Unopened -> has_read (zrun L c s ops) = false.
 Proof.
   intros L c ops. induction ops as [|op r IH]; intros s H1 H2; [reflexivity|].
-  cbn [zrun]. destruct s; try congruence; destruct op; cbn [zstep app has_read]; apply IH; congruence.
+  cbn [zrun]. destruct s; try congruence; destruct op as [o|[|]| |]; cbn [zstep app has_read]; apply IH; congruence.
 Qed.
 
 Lemma zcontext_read_implies_accept : forall L c o ops,
